@@ -71,9 +71,15 @@ pub fn check_outlines(ctx: &Ctx, genome: &[u16]) -> CaseReport {
     rep.sample = Some(describe(&f));
     if ctx.dry { for (k, v) in ufo::render(&f) { rep.artifacts.push((k, v.into_bytes())); } return rep; }
     let mut g = crate::genome::Gen::new(genome);
-    let keep_direction = g.word() % 5 == 0; // reuses the first word: an option, not a model choice
-    let opts = BuildOpts { keep_direction, ..Default::default() };
+    let w0 = g.word(); // reuses the first word: options, not model choices
+    let keep_direction = w0 % 5 == 0;
+    let flatten = w0 % 7 == 3;
+    let decompose = w0 % 11 == 5;
+    let opts = BuildOpts { keep_direction, flatten, decompose, ..Default::default() };
     if keep_direction { rep.class("keep-direction"); }
+    if flatten { rep.class("flatten-components"); }
+    if decompose { rep.class("decompose-components"); }
+    if f.upem == 4096 { rep.class("upem-4096"); }
     let Some(b) = build(ctx, &mut rep, f, &opts) else { return rep };
     let f = &b.font;
     let font = match Font::new(&b.bytes) { Ok(x) => x, Err(e) => { rep.fail("output-unparseable", e); attach_source(&mut rep, &b); return rep; } };
@@ -262,10 +268,10 @@ pub fn check_metrics(ctx: &Ctx, genome: &[u16]) -> CaseReport {
 }
 
 pub fn parts_c03() -> Vec<Part> {
-    vec![Part { name: "outlines", genome_len: 1400, cases_quick: 300, cases_thorough: 6000, threads: 12, max_shrink_iters: 250, check: Box::new(check_outlines), remote: None }]
+    vec![Part { name: "outlines", genome_len: 1400, cases_quick: 1000, cases_thorough: 12000, threads: 12, max_shrink_iters: 250, check: Box::new(check_outlines), remote: None }]
 }
 pub fn parts_c04() -> Vec<Part> {
-    vec![Part { name: "metrics", genome_len: 1400, cases_quick: 300, cases_thorough: 6000, threads: 12, max_shrink_iters: 250, check: Box::new(check_metrics), remote: None }]
+    vec![Part { name: "metrics", genome_len: 1400, cases_quick: 1000, cases_thorough: 12000, threads: 12, max_shrink_iters: 250, check: Box::new(check_metrics), remote: None }]
 }
 
 pub const RULE_C03: &str = "genome -> SynthFont (1-3 axes, default + axis extremes + up to 5 intermediate/corner/interior masters, optional glyph-only layer sources and sparse glyphs; line / quadratic (1 or 2 off-curves per segment) / cubic outlines with per-master jitter and scaling; nested, transformed, mixed and non-export components) written as designspace+UFO3 and compiled in-process; every exported glyph is instantiated at each of its own source locations with an independent gvar evaluator (tuple scalars + IUP) and compared with the model drawing. non-trivial = some glyph has a non-default source whose resolved drawing differs from the default; distinct = hash of the model";
